@@ -43,6 +43,24 @@ Theorem C04_src_hint_eq_full_run :
     = Some (extract St Ev Act Ck H T D Name restore hashf V view ef 0).
 Proof. exact @src_hint_eq_full_run. Qed.
 
+(* what the generated prefix count means, without reference to the model: below it the new plan, the previous plan and the
+   previous response hold the same command (nothing stale is reused); at it, when all three exist, they do not (nothing
+   reusable is thrown away) *)
+Theorem C04_src_cache_count_is_sound_and_maximal :
+  forall (Ev Act Ck H T D Name V : Type) (cmd_eqb : cmd T Name -> cmd T Name -> bool),
+    (forall a b : cmd T Name, cmd_eqb a b = true <-> a = b) ->
+    forall (pcs cs : list (cmd T Name)) (ph : list (resp Ev Act Ck H T D Name V)),
+    exists k : nat,
+      src_cache_count Ev Act Ck H T D Name V cmd_eqb pcs cs ph = Some (Z.of_nat k) /\
+      (forall j : nat, (j < k)%nat ->
+         exists (c : cmd T Name) (h : resp Ev Act Ck H T D Name V),
+           nth_error cs j = Some c /\ nth_error pcs j = Some c /\ nth_error (tl ph) j = Some h /\ rcmd Ev Act Ck H T D Name V h = c) /\
+      (forall (c pc : cmd T Name) (h : resp Ev Act Ck H T D Name V),
+         nth_error cs k = Some c -> nth_error pcs k = Some pc -> nth_error (tl ph) k = Some h ->
+         ~ (pc = rcmd Ev Act Ck H T D Name V h /\ c = pc)).
+Proof. exact @src_cache_count_spec. Qed.
+
 Print Assumptions C04_src_cache_count_is_common_prefix.
 Print Assumptions C04_src_runner_is_model_runner.
 Print Assumptions C04_src_hint_eq_full_run.
+Print Assumptions C04_src_cache_count_is_sound_and_maximal.
